@@ -68,7 +68,7 @@ var c06Contract = []chainReq{
 	{"every non-required field is nullable", "NotRequiredFieldAsNullableType", []string{"AnonymousStructsToNamed"}, []string{"golang", "java", "php", "python"}},
 	{"no two-branch `T | null` union remains", "DisjunctionWithNullToOptional", []string{"FlattenDisjunctions"}, []string{"golang", "java", "php", "python"}},
 	{"enum member names are prefixed", "PrefixEnumValues", []string{"AnonymousEnumToExplicitType", "DisjunctionOfConstantsToEnum"}, []string{"golang"}},
-	{"enum member names are never purely numeric", "RenameNumericEnumValues", []string{"DisjunctionOfConstantsToEnum", "AnonymousEnumToExplicitType"}, []string{"python", "typescript"}},
+	{"enum member names are never purely numeric", "RenameNumericEnumValues", []string{"DisjunctionOfConstantsToEnum", "AnonymousEnumToExplicitType"}, []string{"python", "typescript", "java", "php"}},
 	{"enum member names are sanitised", "SanitizeEnumMemberNames", []string{"DisjunctionOfConstantsToEnum"}, []string{"php"}},
 }
 
